@@ -206,6 +206,16 @@ YOUTUBE_CHANNEL_NAME_BLACKLIST = {
     "reporthistory",
     "results",
     "t",
+    # NOTE: routes of the website are not channel names either
+    # ("c" is left out: a channel of that name does exist)
+    "channel",
+    "embed",
+    "redirect",
+    "shorts",
+    "user",
+    "v",
+    "video",
+    "watch",
 }
 
 YoutubeVideo = namedtuple("YoutubeVideo", ["id", "playlist"])
